@@ -405,14 +405,32 @@ type sink struct {
 	r *report.R
 }
 
+// exitClass names the exit the handler took, for the cell of a violation: one
+// defect is one exit, whatever was injected (a sequence of good operations can
+// fail by itself, e.g. an insert into a table dropped earlier). The handler's
+// own message identifies the exit; where it does not, the injected mechanism
+// is the label. A label only groups violations, it never decides one.
+func exitClass(c tcase, o outcome) string {
+	switch {
+	case strings.Contains(o.Body, "Invalid error condition"):
+		return "condition-unevaluable"
+	case strings.Contains(o.Body, "transaction commit error"):
+		return "commit-fails"
+	case strings.Contains(o.Body, "transaction rollback at operation"):
+		return "operation-fails"
+	case strings.Contains(o.Body, "aborts transaction at operation"), strings.Contains(o.Body, "custom abort"):
+		return "condition-true"
+	case c.Mech == "":
+		return "no-failure-injected"
+	}
+
+	return c.Mech
+}
+
 // judge applies the oracle.
 func (s sink) judge(idx int, c tcase, o outcome) {
 	r := s.r
-	mech := c.Mech
-
-	if mech == "" {
-		mech = "none"
-	}
+	mech := exitClass(c, o)
 
 	wit := witness{Name: c.name(), Case: c, Outcome: o}
 	size := len(c.Ops)*10000000 + idx // shortest request first, then enumeration order
@@ -448,7 +466,11 @@ func (s sink) judge(idx int, c tcase, o outcome) {
 		r.Violation("lock-held:"+mech, size, wit, "after the handler returned another connection cannot take the write lock: "+o.LockError)
 	}
 
-	r.Add("mechanism:"+mech, 1)
+	if c.Mech == "" {
+		r.Add("mechanism:none", 1)
+	} else {
+		r.Add("mechanism:"+c.Mech, 1)
+	}
 }
 
 // tierPlan is the enumeration plan of the tier (VERIF_C17_LEN cuts it short
